@@ -17,6 +17,9 @@ typedef unsigned char uchar;
 #endif
 #define ALPHA 4
 #define VSZ 2
+#ifdef QV_C13
+#define QV_LOCK_HOOKS
+#endif
 #include "qv_pthread.h"
 
 /* assumed contract of the hash dependency (its own correctness is C18): deterministic function of the key bytes */
@@ -27,6 +30,21 @@ uint32_t qhashmurmur3_32(const void *data, size_t nbytes) {
 }
 #include "src/containers/qhashtbl.c"
 
+#ifdef QV_C13
+/* C13 overlay (see harness/qvector/vector.c): num and the chain heads are poison while the table lock is not held */
+static qhashtbl_t *c13_t; static size_t c13_num; static qhashtbl_obj_t *c13_slots[HR];
+static void c13_reveal(void) { c13_t->num = c13_num; for (int j = 0; j < HR; j++) c13_t->slots[j] = c13_slots[j]; }
+static void c13_hide(void) { c13_num = c13_t->num; c13_t->num = nondet_size_t(); for (int j = 0; j < HR; j++) { c13_slots[j] = c13_t->slots[j]; c13_t->slots[j] = NULL; } }
+void qv_on_acquire(void) { if (c13_t) c13_reveal(); }
+void qv_on_release(void) { if (c13_t) c13_hide(); }
+#define C13_END() do { c13_t = NULL; } while (0)      /* overlay off: the harness releases the container */
+#define C13_BEGIN(t) do { c13_t = (t); gh_lock_outer = 0; c13_hide(); } while (0)
+#define C13_SETTLE() do { if (c13_t) c13_reveal(); } while (0)
+#else
+#define C13_BEGIN(t) do { } while (0)
+#define C13_SETTLE() do { } while (0)
+#define C13_END() do { } while (0)
+#endif
 struct model { bool has[ALPHA]; size_t size[ALPHA]; uchar data[ALPHA][VSZ]; };
 struct hstate { qhashtbl_t *t; struct model m; int depth0; };
 
@@ -60,7 +78,10 @@ static struct hstate mk(void) {
     t->num = HN;
     QV_IN(int, depth0);
     QV_ASSUME(depth0 >= 0 && depth0 <= 2);
-    gh_lock_depth = depth0; gh_lock_acquired = 0;
+    gh_lock_depth = depth0; gh_lock_acquired = 0; gh_lock_outer = 0;
+#ifdef QV_C13
+    QV_ASSUME(ts && depth0 == 0);
+#endif
     s.t = t; s.depth0 = depth0;
     return s;
 }
@@ -93,7 +114,11 @@ static void check(struct hstate *s, const struct model *m) {
     for (int i = 0; i < ALPHA; i++) QV_ASSERT(seen[i] == m->has[i], "C05: every key of the ideal map is stored (operations on one key never affect another)");
     QV_ASSERT(t->num == want && cnt == want, "C05: size counts the distinct keys");
 }
+#ifdef QV_C13
+#define LOCK_BALANCED(s) do { C13_SETTLE(); QV_ASSERT(gh_lock_depth == (s).depth0 && gh_lock_outer <= 1, "C13: all shared accesses of the operation lie in ONE critical section, which is released on return"); gh_lock_outer = 0; } while (0)
+#else
 #define LOCK_BALANCED(s) QV_ASSERT(gh_lock_depth == (s).depth0, "C14: lock depth on return equals depth on entry")
+#endif
 
 /* ------------------------------------------------------------ put / putstr */
 void h_put(void) {
@@ -110,6 +135,7 @@ void h_put(void) {
     QV_IN_BYTES(val, VSZ);
     if (asstr) { QV_ASSUME(vs == 2 && val[0] != 0); val[1] = 0; }
     uchar copy[VSZ]; for (int b = 0; b < VSZ; b++) copy[b] = val[b];
+    C13_BEGIN(t);
     errno = 0;
     bool r = asstr ? qhashtbl_putstr(t, name, (char *)val) : qhashtbl_put(t, name, val, vs);
     LOCK_BALANCED(s);
@@ -126,9 +152,10 @@ void h_put(void) {
         if (s.m.has[k]) QV_REACH("put replaced"); else QV_REACH("put inserted");
     }
     free(name); free(val);
+    C13_END();
     QV_ASSERT(!qhashtbl_put(t, NULL, copy, 1) && !qhashtbl_put(t, "a", NULL, 1), "C05: NULL name/data are refused");
-    LOCK_BALANCED(s);
-    qhashtbl_free(t);
+    QV_ASSERT(gh_lock_depth == s.depth0, "C14: refused calls leave the lock depth unchanged");
+    C13_END(); qhashtbl_free(t);
     QV_END();
 }
 
@@ -141,8 +168,11 @@ void h_get_remove(void) {
     QV_IN(bool, newmem); QV_IN(bool, wantsize); QV_IN(bool, asstr);
     char name[2]; name[0] = 'a' + k; name[1] = 0;
     struct model m = s.m;
+#ifndef QV_C13
     QV_ASSERT(qhashtbl_size(t) == HN, "C05: size reports the key count");
+#endif
     size_t sz = 999;
+    C13_BEGIN(t);
     errno = 0;
     uchar *p = asstr ? (uchar *)qhashtbl_getstr(t, name, newmem) : qhashtbl_get(t, name, wantsize ? &sz : NULL, newmem);
     LOCK_BALANCED(s);
@@ -158,15 +188,18 @@ void h_get_remove(void) {
         if (newmem) free(p);
         QV_REACH("get present");
     }
+    C13_BEGIN(t);
     errno = 0;
     bool r = qhashtbl_remove(t, name);
     LOCK_BALANCED(s);
     QV_ASSERT(r == m.has[k] && (r || errno == ENOENT), "C05: remove succeeds exactly for present keys");
     m.has[k] = false;
     check(&s, &m);                       /* unlinks only that key */
+#ifndef QV_C13
     QV_ASSERT(!qhashtbl_remove(t, name) && qhashtbl_get(t, name, NULL, false) == NULL, "C05: a removed key is gone");
     LOCK_BALANCED(s);
-    qhashtbl_free(t);                    /* leak obligation: removal freed node, name and data */
+#endif
+    C13_END(); qhashtbl_free(t);                    /* leak obligation: removal freed node, name and data */
     QV_END();
 }
 
@@ -200,7 +233,7 @@ void h_walk_clear(void) {
     check(&s, &m);
     QV_REACH("walk and clear done");
 out:
-    qhashtbl_free(t);
+    C13_END(); qhashtbl_free(t);
     QV_END();
 }
 
